@@ -32,7 +32,7 @@ theorem endBlock_due {s : St} {f : List (Nat × Nat)} {ra : Nat} {r : Rollapp} (
       r'.evH = nextSlashHeight s.p.lsBlocks s.p.lsInterval s.h r.cdStart ∧ r'.cdStart = r.cdStart ∧
       r'.proposer = r.proposer) ∧
     (∀ a q, Uniq s a ra → r.proposer = some a → getSeq s a = some q →
-      getSeq (endBlock s f) a = some (slashOnce s.p q)) := by
+      getSeq (endBlock s f) a = some (slashOnce s.sqp q)) := by
   obtain ⟨ff, hf⟩ := finalizeRollappStates_frame s f
   have l2 : Lev (finalizeRollappStates s f) := finalizeRollappStates_cl lev_closed hl
   have c2 : Cust (finalizeRollappStates s f) := hc.of_eq ff.seqs ff.modBal
@@ -44,9 +44,9 @@ theorem endBlock_due {s : St} {f : List (Nat × Nat)} {ra : Nat} {r : Rollapp} (
   unfold endBlock
   refine ⟨⟨_, checkLiveness_due_ra l2 c2 hg2 hm2, ?_, hcd2, hp2⟩, ?_⟩
   · show nextSlashHeight _ _ _ r2.cdStart = _
-    rw [ff.p, hf, hcd2]
+    rw [pp_p ff.p, hf, hcd2]
   · intro a q hu hp hq
-    rw [(checkLiveness_due l2 c2 (hu.frame ff) hg2 (hp2.trans hp) (by rw [ff.getSeq]; exact hq) hm2).2, ff.p]
+    rw [(checkLiveness_due l2 c2 (hu.frame ff) hg2 (hp2.trans hp) (by rw [ff.getSeq]; exact hq) hm2).2, pp_sqp ff.p]
 
 /-- inside the first window after the countdown start the rollapp's event cannot be due -/
 theorem Grid.not_due {s : St} (h : Grid s) {ra : Nat} {r : Rollapp} (hg : getRa s ra = some r)
